@@ -9,6 +9,7 @@ import numpy as np
 from dask_array._new_collection import new_collection
 from dask._task_spec import Task, TaskRef
 from dask_array._expr import ArrayExpr
+from dask_array._utils import meta_from_array
 
 
 class ExpandDims(ArrayExpr):
@@ -34,6 +35,9 @@ class ExpandDims(ArrayExpr):
         meta = self.array._meta
         for ax in sorted(self.axes):
             meta = np.expand_dims(meta, axis=ax)
+        if getattr(meta, "size", 0):
+            # the one element of a 0-d meta would make a non-empty (1, ..., 1) meta
+            meta = meta_from_array(meta, ndim=meta.ndim)
         return meta
 
     @functools.cached_property
